@@ -61,7 +61,8 @@ CAP_KS = [12, 57, 286, 573, 2865, 19099]  # atan(1/K) = 4.8, 1.0, 0.2, 0.1, 0.02
 
 STATE_CLAUSES = ["LonInRange", "LatInRange", "SamePoint", "DerivedUnit", "NormalizedIsUnit", "FacePosition", "Confluence"]
 N_ACTIONS = 18  # 15 getters, normalize, construct_face_centers, chunk
-DIALECT_MESHES = [8, 11, 20]  # Dialects.tla: cubed_sphere_2 (poles are nodes), rhombic_dodecahedron, cubed_sphere_4 (96 quads)
+DIALECT_MESHES = [8, 11, 20]  # thorough
+DIALECT_MESHES_QUICK = [20]  # quick: the 96-quad cubed sphere only  # Dialects.tla: cubed_sphere_2 (poles are nodes), rhombic_dodecahedron, cubed_sphere_4 (96 quads)
 DIALECT_ROUTES = ["scrip", "esmf", "mpas"]
 
 # catalogue meshes: the first group has nodes at both poles, on the antimeridian and on the prime
@@ -141,12 +142,12 @@ def make_cases(tag, walks, nodes, meshes, feats, start=0, chunk_first=lambda w, 
     return cases
 
 
-def dialect_cases(ctx, cover, nodes, thorough):
+def dialect_cases(ctx, cover, nodes, thorough):  # noqa: C901
     """Further provenance routes: SCRIP (supplies centres), ESMF (centerCoords), MPAS (radians in [0, 2 pi), x/y/z,
     centres).  TLC (Dialects.tla) emits the stored tables of each source; harness/x_c01.py materialises them."""
     from checks import c01
 
-    ms, dcs = c01.generate(ctx, DIALECT_MESHES, DIALECT_ROUTES)
+    ms, dcs = c01.generate(ctx, DIALECT_MESHES if thorough else DIALECT_MESHES_QUICK, DIALECT_ROUTES)
     keys = {}
     for mi, m in ms.items():
         key = ("dialects:" + m["id"], 0, 0)
